@@ -103,12 +103,36 @@ enum Concrete {
     Skip,
 }
 
-/// known findings (see C11): a query on a grammar with a hidden stop= lexeme kills the engine
-fn hidden_stop_panic(m: &Matcher, can_rollback: bool) -> Option<String> {
+/// Why does engine `e` differ from its private twin?  `Some(Ok(()))`: no verdict (dead-end state, the
+/// business of C03); `Some(Err(key))`: a known finding's key; `None`: unexplained.
+fn explain(e_err: Option<String>, family_errs: &[Option<String>], can_rollback: bool) -> Option<Result<(), String>> {
+    let err = e_err?;
+    // an empty mask in a non-accepting state latches NoExtensionBias; whether such states are reachable is C03's question
+    if err.contains("NoExtensionBias") {
+        return Some(Ok(()));
+    }
     if can_rollback {
         return None;
     }
-    m.get_error().and_then(|e| crate::engine::hidden_stop_panic(&e)).map(|k| format!("C14/{}", k))
+    if let Some(k) = crate::engine::hidden_stop_panic(&err) {
+        return Some(Err(format!("C14/{}", k)));
+    }
+    if err.contains("PoisonError") {
+        // the panic happened in a sibling that shares the lexer tables and poisoned their mutex
+        for o in family_errs.iter().flatten() {
+            if let Some(k) = crate::engine::hidden_stop_panic(o) {
+                return Some(Err(format!("C14/{}", k)));
+            }
+        }
+    }
+    None
+}
+
+/// clone()/deep_clone() lock the shared lexer tables outside the engine's panic guard
+fn guarded_clone(m: &Matcher, deep: bool) -> Result<Matcher, String> {
+    std::panic::catch_unwind(std::panic::AssertUnwindSafe(|| if deep { m.deep_clone() } else { m.clone() })).map_err(|e| {
+        e.downcast_ref::<String>().cloned().or_else(|| e.downcast_ref::<&str>().map(|s| s.to_string())).unwrap_or_else(|| "non-string panic".into())
+    })
 }
 
 fn concretise(act: &Act, priv_m: &mut Matcher, tokens: &[u32], vocab: &Vocab, can_rollback: bool) -> Concrete {
@@ -316,7 +340,17 @@ impl Prop for C14 {
                         continue;
                     }
                     let s = *src as usize % engs.len();
-                    let m2 = if *deep { engs[s].m.deep_clone() } else { engs[s].m.clone() };
+                    let m2 = match guarded_clone(&engs[s].m, *deep) {
+                        Ok(m) => m,
+                        Err(msg) => {
+                            let errs: Vec<Option<String>> = engs.iter().map(|o| o.m.get_error()).collect();
+                            let key = match explain(Some(msg.clone()), &errs, can_rollback) {
+                                Some(Err(k)) => k,
+                                _ => "C14/clone-panicked".to_string(),
+                            };
+                            return ctx.fail(&key, || format!("grammar {} base tokens {:?} schedule {:?}: {}(e{}) panicked: {}", gtxt, base.tokens, log, if *deep { "deep_clone" } else { "clone" }, s, msg));
+                        }
+                    };
                     let t2 = engs[s].tokens.clone();
                     log.push(format!("e{}={}(e{})", engs.len(), if *deep { "deep_clone" } else { "clone" }, s));
                     engs.push(Eng { m: m2, tokens: t2 });
@@ -347,12 +381,15 @@ impl Prop for C14 {
                         return Ok(());
                     }
                     if got != want {
-                        let mut k = hidden_stop_panic(&e.m, can_rollback);
-                        if k.is_none() && e.m.get_error().is_some_and(|x| x.contains("PoisonError")) {
-                            // the panic happened in another clone that shares the lexer tables and poisoned their mutex
-                            k = engs.iter().find_map(|o| hidden_stop_panic(&o.m, can_rollback));
-                        }
-                        let k = k.unwrap_or_else(|| "C14/clone-differs-from-private-engine".to_string());
+                        let errs: Vec<Option<String>> = engs.iter().map(|o| o.m.get_error()).collect();
+                        let k = match explain(errs[w].clone(), &errs, can_rollback) {
+                            Some(Ok(())) => {
+                                ctx.class("dead_end_state(no verdict)");
+                                return Ok(());
+                            }
+                            Some(Err(k)) => k,
+                            None => "C14/clone-differs-from-private-engine".to_string(),
+                        };
                         let e = &engs[w];
                         return ctx.fail(&k, || {
                             format!("grammar {} base tokens {:?} schedule {:?}: engine e{} returned {:?}, a private engine with the same history returns {:?} (engine error: {:?})", gtxt, base.tokens, log, w, short_out(&got), short_out(&want), e.m.get_error().map(|x| crate::engine::short_err(&x)))
@@ -404,7 +441,16 @@ impl Prop for C14 {
                     return Ok(());
                 }
                 if got != want {
-                    let k = hidden_stop_panic(&e.m, can_rollback).unwrap_or_else(|| "C14/interleaving-changes-result".to_string());
+                    let errs: Vec<Option<String>> = pair.iter().map(|o| o.m.get_error()).collect();
+                    let k = match explain(errs[w].clone(), &errs, can_rollback) {
+                        Some(Ok(())) => {
+                            ctx.class("dead_end_state(no verdict)");
+                            return Ok(());
+                        }
+                        Some(Err(k)) => k,
+                        None => "C14/interleaving-changes-result".to_string(),
+                    };
+                    let e = &pair[w];
                     return ctx.fail(&k, || {
                         format!("grammar {} base tokens {:?}: interleaving {:?} of scripts {:?}: clone {} returned {:?}, private engine {:?} (engine error: {:?})", gtxt, base.tokens, il, case.pair, w, short_out(&got), short_out(&want), e.m.get_error().map(|x| crate::engine::short_err(&x)))
                     });
@@ -454,7 +500,17 @@ impl Prop for C14 {
             let mut handles = vec![];
             for (k, (concs, _)) in plans.iter().enumerate() {
                 // odd threads get deep clones
-                let mut m = if k % 3 == 2 { base.m.deep_clone() } else { base.m.clone() };
+                let mut m = match guarded_clone(&base.m, k % 3 == 2) {
+                    Ok(m) => m,
+                    Err(msg) => {
+                        // a clone of an earlier repetition died of a known panic and poisoned the shared tables
+                        if !can_rollback && msg.contains("PoisonError") {
+                            ctx.class("base_poisoned_by_known_panic(no further repetitions)");
+                            return Ok(());
+                        }
+                        return ctx.fail("C14/clone-panicked", || format!("grammar {} base tokens {:?}: cloning the base engine panicked: {}", gtxt, base.tokens, msg));
+                    }
+                };
                 let mut toks = base.tokens.clone();
                 let concs = concs.clone();
                 let b = barrier.clone();
@@ -467,27 +523,41 @@ impl Prop for C14 {
                     (outs, m.get_error())
                 }));
             }
+            let mut results: Vec<(Vec<Out>, Option<String>)> = vec![];
             for (k, h) in handles.into_iter().enumerate() {
-                let (outs, err) = match h.join() {
-                    Ok(x) => x,
+                match h.join() {
+                    Ok(x) => results.push(x),
                     Err(_) => {
                         return ctx.fail("C14/thread-panicked", || format!("grammar {}: clone thread {} panicked", gtxt, k));
                     }
-                };
+                }
+            }
+            let errs: Vec<Option<String>> = results.iter().map(|r| r.1.clone()).collect();
+            let mut known: Option<String> = None;
+            for (k, (outs, err)) in results.iter().enumerate() {
                 ctx.eval(outs.len() as u64);
                 if err.as_ref().is_some_and(|e| is_limit_error(e)) {
                     continue;
                 }
-                if outs != plans[k].1 {
+                if outs != &plans[k].1 {
                     let i = outs.iter().zip(&plans[k].1).position(|(a, b)| a != b).unwrap_or(0);
-                    let key = match err.as_ref().and_then(|e| crate::engine::hidden_stop_panic(e)) {
-                        Some(k) if !can_rollback => format!("C14/{}", k),
-                        _ => "C14/parallel-run-differs-from-private-engine".to_string(),
+                    let key = match explain(err.clone(), &errs, can_rollback) {
+                        Some(Ok(())) => {
+                            ctx.class("dead_end_state(no verdict)");
+                            continue;
+                        }
+                        Some(Err(k)) => k,
+                        None => "C14/parallel-run-differs-from-private-engine".to_string(),
                     };
-                    return ctx.fail(&key, || {
-                        format!("grammar {} base tokens {:?}: with {} threads, clone {} act #{} {:?} returned {:?}, private engine {:?}", gtxt, base.tokens, nthreads, k, i, plans[k].0.get(i), short_out(&outs[i]), short_out(&plans[k].1[i]))
-                    });
+                    ctx.fail(&key, || {
+                        format!("grammar {} base tokens {:?}: with {} threads, clone {} act #{} {:?} returned {:?}, private engine {:?} (engine error: {:?})", gtxt, base.tokens, nthreads, k, i, plans[k].0.get(i), short_out(&outs[i]), short_out(&plans[k].1[i]), err.as_ref().map(|x| crate::engine::short_err(x)))
+                    })?;
+                    known = Some(key);
                 }
+            }
+            if known.is_some() {
+                // the family is dead after a known panic: nothing more to learn from further repetitions
+                return Ok(());
             }
             ctx.class("thread_runs");
         }
